@@ -53,6 +53,9 @@ def installation(gen, variant=0):
     describes at re-init: FEWER entities with other names (stale entries must be gone)."""
     if variant == 0:
         return C.default_installation(gen, 2, (1, 2), names=["Alpha", "Beta", "Gamma"])
+    if variant == 2:
+        # an installation without any zone (the handshake ends in another branch)
+        return C.default_installation(gen, 1, (0,))
     inst = C.default_installation(gen, 1, (2,), names=["Uno", "Due"])
     inst["acs"][0]["ability"]["name"] = "Other"
     return inst
@@ -624,7 +627,10 @@ def run_cycles(case):
             viol.append({"mechanism": mech, "detail": dict(d, gen=gen, cycle=k),
                          "log": H.log_slice(log, 30)})
         for k in range(case["cycles"]):
-            w.console = C.SimConsole(net, installation(gen, k % 2), C.Knobs())
+            w.console = C.SimConsole(net, installation(gen, k % 3), C.Knobs())
+            if k % 3 == 2:
+                obs["lives_on_an_installation_without_zones"] = obs.get(
+                    "lives_on_an_installation_without_zones", 0) + 1
             net.script.clear()
             m = log.mark()
             r = await H.probe(log, "init", w.at.init())
